@@ -90,6 +90,10 @@ func installFault(f *prog.WriterFault) {
 		}
 		ctl := failw.NewCtl()
 		ctl.FailAt, ctl.Sticky = f.Pos, f.Sticky
+		if f.Pos < 0 {
+			ctl.FailAt, ctl.FailClose = -1, true
+		}
+		ctl.OnFire = func() { mark("fault-fired\n") }
 		if f.Which == "data" {
 			w.VerifWrapWriters(func(d recordio.WriterI) recordio.WriterI { return &failw.Data{W: d, C: ctl} }, nil)
 		} else {
